@@ -28,7 +28,7 @@
 EXTENDS Naturals, Sequences, FiniteSets, TLC, Json, Vocab
 
 CONSTANTS
-    Mode,      \* "model" | "soup" | "sim" | "min" | "mut" | "mutsim" | "mutw" | "lex" | "lextime"
+    Mode,      \* "model" | "soup" | "sim" | "min" | "mut" | "mutsim" | "mutw" | "lex" | "lextime" | "pos" | "posw"
     MaxLen,    \* soups: number of Emit steps after the root; sim: maximal length
     Roots,     \* soups: classes the soup may start with; "-" = bare root (nothing before the soup)
     Alphabet,  \* soups: classes Emit may append (a subset of Classes)
@@ -49,8 +49,8 @@ vars == <<soup, prev, rets, outcome, muts, base, rtype>>
 -----------------------------------------------------------------------------
 (* Token classes                                                           *)
 
-Openers  == {"OPN", "SYM", "STY", "GRD"}        \* OPN: one of the 16 block types the loop does not look at
-Words    == {"WRD", "SAT", "NAM", "NRM"}        \* plain keyword, symbol attribute (not "NAME"), "NAME", NORMAL
+Openers  == {"OPN", "SYM", "STY", "GRD", "FEA"} \* OPN: one of the 15 block types the loop does not look at
+Words    == {"WRD", "SAT", "NAM", "NRM", "IMG"} \* plain keyword, symbol attribute (not "NAME"), "NAME", NORMAL, IMAGEMODE
 Literals == {"STR", "INT", "FLT", "HEX", "REX", "BOO"}
 Brackets == {"LSQ", "RSQ", "LPA", "RPA", "LBR", "RBR", "COM"}
 Opers    == {"OP", "NOT"}
@@ -71,17 +71,20 @@ TokOf(c) ==
       [] c = "GRD" -> [ty |-> "GRID",   v |-> "GRID",   lv |-> "grid"]
       [] c = "SYM" -> [ty |-> "SYMBOL", v |-> "SYMBOL", lv |-> "symbol"]
       [] c = "STY" -> [ty |-> "STYLE",  v |-> "STYLE",  lv |-> "style"]
+      [] c = "FEA" -> [ty |-> "FEATURE", v |-> "FEATURE", lv |-> "feature"]
+      [] c = "IMG" -> [ty |-> "UNQUOTED_STRING", v |-> "IMAGEMODE", lv |-> "imagemode"]
       [] OTHER     -> [ty |-> c, v |-> c, lv |-> c]
 
 ValueTy == "UNQUOTED_STRING_VALUE"
-NoPrev  == [k |-> "none", ty |-> "", v |-> ""]
+NoPrev  == [k |-> "none", ty |-> "", v |-> "", lv |-> ""]
 
-\* The retyping rule.  prev = [k, ty, v]: value-stack top (k = "none" when the stack is empty,
+\* The retyping rule.  prev = [k, ty, v, lv]: value-stack top (k = "none" when the stack is empty,
 \* "tok" for a token, "tree" for anything else); tok = [ty, v, lv].
 RetypeSpec(p, t) ==
     CASE t.ty = "UNQUOTED_STRING" /\ p.k = "tok" /\ p.ty = "SYMBOL" /\ t.lv \notin SymbolAttributes -> ValueTy
       [] t.ty = "UNQUOTED_STRING" /\ p.k = "tok" /\ p.ty = "STYLE"  /\ t.lv = "normal"            -> ValueTy
       [] t.ty = "GRID"            /\ p.k = "tok" /\ p.v = "NAME"                                  -> ValueTy
+      [] t.ty = "FEATURE"         /\ p.k = "tok" /\ p.ty = "UNQUOTED_STRING" /\ p.lv = "imagemode" -> ValueTy
       [] OTHER -> t.ty
 
 \* broken variants for the negative configurations (TLC must reject them)
@@ -96,13 +99,13 @@ Retype(p, t) ==
       [] OTHER -> RetypeSpec(p, t)
 
 \* the value-stack top after a token was shifted
-After(p, t) == [k |-> "tok", ty |-> Retype(p, t), v |-> t.v]
+After(p, t) == [k |-> "tok", ty |-> Retype(p, t), v |-> t.v, lv |-> t.lv]
 
 -----------------------------------------------------------------------------
 (* Documents that are well-formed by construction                          *)
 
 \* a minimal document of each block type (and SYMBOLSET): opener END
-OpenerClass(t) == CASE t = "symbol" -> "SYM" [] t = "style" -> "STY" [] t = "grid" -> "GRD" [] OTHER -> "OPN"
+OpenerClass(t) == CASE t = "symbol" -> "SYM" [] t = "style" -> "STY" [] t = "grid" -> "GRD" [] t = "feature" -> "FEA" [] OTHER -> "OPN"
 RootTypes    == GrammarBlockTypes \cup {"symbolset"}
 MinimalDoc(t) == IF t = "symbolset" THEN <<"SET", "END">> ELSE <<OpenerClass(t), "END">>
 IsMinimal(s)  == \E t \in RootTypes : s = MinimalDoc(t)
@@ -120,6 +123,8 @@ CanonDocs == <<
     <<"OPN", "CFG", "STR", "STR", "WRD", "REX", "END">>,
     <<"OPN", "WRD", "LBR", "INT", "COM", "INT", "RBR", "WRD", "AUT", "END">>,
     <<"SET", "SYM", "NAM", "STR", "END", "END">>,
+    <<"OPN", "IMG", "FEA", "WRD", "WRD", "END">>,                                  \* OUTPUTFORMAT IMAGEMODE FEATURE DRIVER x END
+    <<"OPN", "FEA", "PTS", "INT", "FLT", "END", "END", "END">>,
     <<"OPN", "END", "OPN", "END">> >>
 
 -----------------------------------------------------------------------------
@@ -170,7 +175,7 @@ Run(s, i, st) == IF i > Len(s) THEN st
 
 Through(s) == Run(s, 1, [p |-> NoPrev, r |-> <<>>])
 
-Tracked == Mode # "mutw"        \* (mutw sequences hold token ids, the loop abstraction is not run on them)
+Tracked == Mode \notin {"mutw", "posw"}        \* (mutw sequences hold token ids, the loop abstraction is not run on them)
 
 SetSoup(s) == /\ soup' = s
               /\ prev' = IF Tracked THEN Through(s).p ELSE NoPrev
@@ -216,6 +221,24 @@ ApplyMut(op, i, j, k, seg) ==
                              /\ muts' = Append(muts, [op |-> op, i |-> k, seg |-> seg])
 
 MutOps == {"delete", "duplicate", "swap", "truncate", "splice", "break"}
+
+\* Mutations with a determinate first offending token.  The sequence before the mutation is a
+\* well-formed document, so every prefix of it can be shifted:
+\*   "junk"      a junk character (a token no terminal matches anywhere) inserted after position k:
+\*               the junk token itself is the first token that cannot be shifted;
+\*   "extraend"  one more END after the complete document: that END is.
+JunkId == 999
+EndId  == 998
+PosMutate ==
+    /\ outcome = "none"
+    /\ muts = <<>>
+    /\ \/ \E k \in 0..Len(soup) :
+            /\ SetSoup(SpliceAt(soup, k, <<IF Mode = "posw" THEN JunkId ELSE "JNK">>))
+            /\ muts' = <<[op |-> "junk", i |-> k, bad |-> k + 1]>>
+       \/ /\ SetSoup(Append(soup, IF Mode = "posw" THEN EndId ELSE "END"))
+          /\ muts' = <<[op |-> "extraend", i |-> Len(soup), bad |-> Len(soup) + 1]>>
+    /\ UNCHANGED <<outcome, base, rtype>>
+Offending == IF Len(muts) = 1 /\ muts[1].op \in {"junk", "extraend"} THEN muts[1].bad ELSE 0
 
 \* exhaustive (class level): every single mutation, and every pair of non-splice mutations
 Mutate ==
@@ -263,11 +286,11 @@ Init ==
           /\ rtype \in RootTypes
           /\ soup = MinimalDoc(rtype)
           /\ base = 0
-       \/ /\ Mode \in {"mut", "mutsim"}
+       \/ /\ Mode \in {"mut", "mutsim", "pos"}
           /\ base \in 1..Len(CanonDocs)
           /\ soup = CanonDocs[base]
           /\ rtype = ""
-       \/ /\ Mode = "mutw"
+       \/ /\ Mode \in {"mutw", "posw"}
           /\ base = 0 /\ rtype = ""
           /\ soup = [i \in 1..N |-> i]
        \/ /\ Mode = "lex"
@@ -292,6 +315,8 @@ Next ==
        /\ RandEmit
     \/ /\ Mode = "mut"
        /\ Mutate
+    \/ /\ Mode \in {"pos", "posw"}
+       /\ PosMutate
     \/ /\ Mode \in {"mutsim", "mutw"}
        /\ RandMutate
 
@@ -325,11 +350,12 @@ RetypeSound ==
     \A i \in 1..Len(soup) :
         LET t == TokOf(soup[i]) IN
         /\ rets[i] \in {t.ty, ValueTy}
-        /\ rets[i] = ValueTy => soup[i] \in {"WRD", "NRM", "GRD"}
+        /\ rets[i] = ValueTy => soup[i] \in {"WRD", "NRM", "GRD", "IMG", "FEA"}
         /\ i = 1 => rets[i] = t.ty
-        /\ (i > 1 /\ soup[i - 1] = "SYM" /\ rets[i - 1] = "SYMBOL") => (rets[i] = ValueTy) = (soup[i] \in {"WRD", "NRM"})
+        /\ (i > 1 /\ soup[i - 1] = "SYM" /\ rets[i - 1] = "SYMBOL") => (rets[i] = ValueTy) = (soup[i] \in {"WRD", "NRM", "IMG"})
         /\ (i > 1 /\ soup[i - 1] = "STY" /\ rets[i - 1] = "STYLE" /\ soup[i] = "NRM") => rets[i] = ValueTy
         /\ (i > 1 /\ soup[i] = "GRD") => (rets[i] = ValueTy) = (soup[i - 1] = "NAM")
+        /\ (i > 1 /\ soup[i] = "FEA") => (rets[i] = ValueTy) = (soup[i - 1] = "IMG" /\ rets[i - 1] = "UNQUOTED_STRING")
 
 \* the judgement of one recorded outcome (TraceParseLoop applies it to what the real code did):
 \*   kind  in {"ok","larkerror","other"}
@@ -340,9 +366,13 @@ RetypeSound ==
 \* ParseError / LexError rather than an UnexpectedInput.
 PosOK(line, col, nlines) == /\ line >= 1 /\ line <= nlines + 1 /\ col >= 1
 IsSyntaxError(r) == r.kind = "larkerror" /\ r.stage = "parse"
+\* hasexp: the behaviour determines the first token that cannot be shifted (see Offending below) and
+\* the text layout gives its line and column (eline, ecol): the error must point exactly there
+PosExact(r) == (r.hasexp /\ IsSyntaxError(r) /\ r.haspos) => (r.line = r.eline /\ r.col = r.ecol)
 OutcomeOK(r) ==
     /\ r.kind \in {"ok", "larkerror"}
     /\ IsSyntaxError(r) => (r.haspos /\ PosOK(r.line, r.col, r.nlines))
+    /\ PosExact(r)
     /\ (r.kind = "ok") => r.isdict
 
 \* "promptly": the one formula of the timing clause.  The harness measures CPU time (microseconds)
@@ -357,8 +387,10 @@ TimeOK(r) == \/ r.t1us <= TimeFloorUs
 (* Emission (G): behaviours as JSON lines                                  *)
 
 \* printed once per TLC run: the default allowed outcomes come from the spec, not from the harness
+\* the (previous class, class) pairs on which the loop retypes: long repetitive inputs must hit each
+RetypePairs == {p \in Classes \X Classes : Run(<<p[1], p[2]>>, 1, [p |-> NoPrev, r |-> <<>>]).r[2] = ValueTy}
 Header == [hdr |-> "ParseLoop", allowed |-> Allowed(<<"JNK">>), classes |-> Classes, mutops |-> MutOps,
-           timefactor |-> TimeFactor, timefloorus |-> TimeFloorUs]
+           timefactor |-> TimeFactor, timefloorus |-> TimeFloorUs, retypepairs |-> RetypePairs]
 ASSUME PrintT(ToJson(Header))
 
 \* exhaustive soups: one line per state.  A bare array is a soup with the header's allowed
@@ -369,6 +401,9 @@ EmitSoup == IF IsMinimal(soup) THEN PrintT(ToJson([s |-> soup, allowed |-> Allow
 EmitSim == (Steps = base) => PrintT(ToJson(soup))
 
 EmitMin == outcome = "none" => PrintT(ToJson([s |-> soup, allowed |-> Allowed(soup), t |-> rtype]))
+
+EmitPos == Len(muts) = 1 =>
+    PrintT(ToJson([s |-> soup, base |-> base, muts |-> muts, allowed |-> Allowed(soup), tail |-> TRUE, bad |-> Offending]))
 
 EmitLex == outcome = "none" => PrintT(ToJson([lex |-> rtype, allowed |-> Allowed(<<"JNK">>)]))
 
